@@ -11,7 +11,7 @@ import sys
 import time
 
 VERIF = os.path.dirname(os.path.dirname(os.path.abspath(__file__)))
-EVID = os.path.join(VERIF, "evidence")
+EVID = os.environ.get("VSA_EVID") or os.path.join(VERIF, "evidence")
 KNOWN = os.path.join(VERIF, "known_findings.json")
 
 
@@ -20,7 +20,8 @@ class AnalysisError(Exception):
 
 
 class Finding:
-    def __init__(self, rule, file, line, func, construct, reason, path=None):
+    def __init__(self, rule, file, line, func, construct, reason, path=None, anchor=None):
+        self.anchor = anchor
         self.rule = rule
         self.file = file
         self.line = line
@@ -31,8 +32,8 @@ class Finding:
 
     @property
     def key(self):
-        # never keyed by line number: rule + function + normalised construct text
-        return f"{self.rule}|{self.func}|{self.construct}"
+        # never keyed by line number: rule + function + a rule-chosen stable anchor (falls back to the construct text)
+        return f"{self.rule}|{self.func}|{self.anchor or self.construct}"
 
     def as_dict(self):
         return {
@@ -80,8 +81,8 @@ class Report:
     def ok(self, rule, where, what, how, nontrivial=True):
         self.obligations.append(Obligation(rule, where, what, how, nontrivial))
 
-    def fail(self, rule, file, line, func, construct, reason, path=None):
-        self.findings.append(Finding(rule, file, line, func, construct, reason, path))
+    def fail(self, rule, file, line, func, construct, reason, path=None, anchor=None):
+        self.findings.append(Finding(rule, file, line, func, construct, reason, path, anchor))
 
     def floor(self, rule, name, count, floor):
         self.floors.append((rule, name, count, floor))
